@@ -1,0 +1,230 @@
+//go:build verif
+
+// Contracts for package utf7, checked by /verif/govc (see /verif/DESIGN.md).
+// This file is only compiled with the build tag "verif"; it adds ghost
+// specification functions and //@ contract blocks and changes nothing else.
+
+package utf7
+
+import (
+	"encoding/base64"
+	"unicode/utf16"
+	"unicode/utf8"
+
+	"golang.org/x/text/transform"
+)
+
+var (
+	_ = base64.StdEncoding
+	_ = utf16.IsSurrogate
+	_ = utf8.RuneError
+	_ = transform.ErrShortDst
+)
+
+// ---------------------------------------------------------------------------
+// Assumed contracts of the standard library functions the codec relies on.
+// They are stated for the padded encoding b64Enc (base64.NewEncoding without
+// WithPadding), the only *base64.Encoding this package uses.
+
+//@ extern encoding/base64 func (enc *base64.Encoding) EncodedLen(n int) (result int)
+//@   pure
+//@   ensures n >= 0 ==> result == (n+2)/3*4
+
+//@ extern encoding/base64 func (enc *base64.Encoding) DecodedLen(n int) (result int)
+//@   pure
+//@   ensures n >= 0 ==> result == n/4*3
+
+// Encode writes exactly EncodedLen(len(src)) bytes of the alphabet or '=' and
+// panics (index out of range) on a shorter destination.
+//
+//@ extern encoding/base64 func (enc *base64.Encoding) Encode(dst, src []byte)
+//@   requires len(dst) >= (len(src)+2)/3*4
+//@   modifies dst
+//@   ensures forall k int :: 0 <= k && k < (len(src)+2)/3*4 ==> printable(dst[k])
+
+// Decode reports how many bytes it wrote; it needs DecodedLen(len(src)) bytes.
+//
+//@ extern encoding/base64 func (enc *base64.Encoding) Decode(dst, src []byte) (n int, err error)
+//@   requires len(dst) >= len(src)/4*3
+//@   modifies dst
+//@   ensures 0 <= n && n <= len(src)/4*3
+//@   ensures forall k int :: k < 0 || k >= n ==> dst[k] == old(dst[k])
+//@   ensures err == nil ==> forall k int :: 0 <= k && k < len(src) ==> printable(old(src[k])) || old(src[k]) == 13 || old(src[k]) == 10
+
+//@ extern unicode/utf8 func DecodeRune(p []byte) (r rune, size int)
+//@   pure
+//@   ensures len(p) > 0 ==> 1 <= size && size <= 4 && size <= len(p)
+//@   ensures len(p) == 0 ==> size == 0
+//@   ensures 0 <= r && r <= 0x10FFFF
+
+// runeLen: the number of bytes utf8.EncodeRune writes (3 for the replacement
+// character that stands for invalid runes).
+//
+//@ pure
+func runeLen(r rune) int {
+	if r < 0 {
+		return 3
+	}
+	if r < 0x80 {
+		return 1
+	}
+	if r < 0x800 {
+		return 2
+	}
+	if r < 0x10000 {
+		return 3
+	}
+	if r <= 0x10FFFF {
+		return 4
+	}
+	return 3
+}
+
+// EncodeRune panics if p is too short.
+//
+//@ extern unicode/utf8 func EncodeRune(p []byte, r rune) (result int)
+//@   requires len(p) >= runeLen(r)
+//@   modifies p
+//@   ensures result == runeLen(r)
+//@   ensures forall k int :: 0 <= k && k < result ==> (0 <= r && r < 0x80 ==> p[k] == byte(r)) && (r < 0 || r >= 0x80 ==> p[k] >= 0x80)
+//@   ensures forall k int :: k < 0 || k >= result ==> p[k] == old(p[k])
+
+//@ extern unicode/utf16 func DecodeRune(r1, r2 rune) (result rune)
+//@   pure
+//@   ensures result == 0xFFFD || (0x10000 <= result && result <= 0x10FFFF)
+
+// ---------------------------------------------------------------------------
+
+// sentinels: the three error values the transformers report are initialised
+// and pairwise distinct (package-level state, assumed at entry).
+//
+//@ pure
+func sentinels() bool {
+	return ErrInvalidUTF7 != nil && transform.ErrShortSrc != nil && transform.ErrShortDst != nil &&
+		ErrInvalidUTF7 != transform.ErrShortSrc && ErrInvalidUTF7 != transform.ErrShortDst && transform.ErrShortSrc != transform.ErrShortDst
+}
+
+// printable: the bytes that represent themselves in modified UTF-7; the
+// encoder may emit nothing else.
+//
+//@ pure
+func printable(ch byte) bool { return min <= ch && ch <= max }
+
+// encode: a non-empty run of bytes becomes "&" base64 "-", all printable ASCII,
+// in a fresh slice.
+//
+//@ func encode(s []byte) (result []byte)
+//@   props C16
+//@   requires len(s) > 0
+//@   fresh-arrays
+//@   ensures len(result) >= 3
+//@   ensures __fresh(result)
+//@   ensures forall k int :: 0 <= k && k < len(result) ==> printable(result[k])
+//@   loop 0 vars (s1 []byte, b []byte)
+//@   loop 0 invariant len(s1) <= len(s) && (len(s1) < len(s) ==> len(b) >= 2)
+//@   loop 0 invariant __fresh(b)
+//@   loop 0 decreases len(s1)
+
+// encoder.Transform obeys the transform.Transformer contract for every input,
+// chunking and buffer size: the counts stay within the buffers, everything
+// written is printable ASCII, success means the whole source was consumed,
+// and an incomplete trailing run of non-ASCII bytes is only encoded at EOF.
+//
+//@ func (e *encoder) Transform(dst, src []byte, atEOF bool) (nDst, nSrc int, err error)
+//@   props C16
+//@   requires __base(dst) != __base(src) || len(dst) == 0 || len(src) == 0
+//@   requires ErrInvalidUTF7 != nil && transform.ErrShortSrc != nil && transform.ErrShortDst != nil
+//@   requires ErrInvalidUTF7 != transform.ErrShortSrc && ErrInvalidUTF7 != transform.ErrShortDst && transform.ErrShortSrc != transform.ErrShortDst
+//@   ensures 0 <= nDst && nDst <= len(dst)
+//@   ensures 0 <= nSrc && nSrc <= len(src)
+//@   ensures err == nil ==> nSrc == len(src)
+//@   ensures err != nil ==> err == transform.ErrShortSrc || err == transform.ErrShortDst
+//@   ensures err == transform.ErrShortSrc ==> !atEOF
+//@   ensures forall k int :: 0 <= k && k < nDst ==> printable(dst[k])
+//@   ensures !atEOF && len(src) > 0 && !printable(old(src[len(src)-1])) ==> err != nil
+//@   loop 0 vars (nDst1 int, nSrc1 int, i int)
+//@   loop 0 invariant 0 <= i && i <= len(src) && nSrc1 == i && 0 <= nDst1 && nDst1 <= len(dst)
+//@   loop 0 invariant forall k int :: 0 <= k && k < len(src) ==> src[k] == old(src[k])
+//@   loop 0 invariant !atEOF && i > 0 ==> printable(src[i-1]) || (i < len(src) && printable(src[i]))
+//@   loop 0 invariant forall k int :: 0 <= k && k < nDst1 ==> printable(dst[k])
+//@   loop 0 decreases len(src) - i
+//@   loop 1 vars (nDst1 int, idx int)
+//@   loop 1 locals (b []byte, i int)
+//@   loop 1 invariant -1 <= idx && 0 <= nDst1 && nDst1+len(b)-(idx+1) <= len(dst) && i <= len(src) && 0 < i
+//@   loop 1 invariant forall k int :: 0 <= k && k < nDst1 ==> printable(dst[k])
+//@   loop 1 invariant forall k int :: 0 <= k && k < len(b) ==> printable(b[k])
+//@   loop 1 invariant __base(b) != __base(dst)
+//@   loop 1 invariant forall k int :: 0 <= k && k < len(src) ==> src[k] == old(src[k])
+//@   loop 1 invariant !atEOF ==> printable(src[i-1]) || (i < len(src) && printable(src[i]))
+//@   loop 1 decreases len(b) - idx
+//@   loop 2 vars (i int)
+//@   loop 2 invariant 0 < i && i <= len(src)
+//@   loop 2 decreases len(src) - i
+
+// lemmaSameBytes restates an element-wise equality so that it can be used in
+// both directions.
+//
+//@ lemma
+//@ requires len(a) <= len(b)
+//@ requires forall k int :: 0 <= k && k < len(a) ==> b[k] == a[k]
+//@ ensures forall k int :: 0 <= k && k < len(a) ==> a[k] == b[k]
+func lemmaSameBytes(a, b []byte) {}
+
+// decode never indexes outside its buffers, for every non-empty input: the
+// single allocation is large enough for the padded base64 text, the UTF-16
+// bytes and the UTF-8 result.
+//
+//@ func decode(b64in []byte) (result []byte)
+//@   props C16
+//@   requires len(b64in) > 0
+//@   at "b64, b = b[:n], b[n:]" with (b []byte) do lemmaSameBytes(b64in, b)
+//@   fresh-arrays
+//@   ensures len(result) == 0 || __fresh(result)
+//@   ensures forall k int :: 0 <= k && k < len(result) ==> !printable(result[k])
+//@   ensures len(result) > 0 ==> forall k int :: 0 <= k && k < len(b64in) ==> printable(b64in[k]) || b64in[k] == 13 || b64in[k] == 10
+//@   loop 0 vars (i int, j int)
+//@   loop 0 locals (n int, b []byte, s []byte)
+//@   loop 0 invariant 0 <= i && i&1 == 0 && n&1 == 0 && 0 <= j && 2*j <= 3*i && len(b) == n && len(s) >= 2*n && i <= n
+//@   loop 0 invariant forall k int :: 0 <= k && k < j ==> !printable(s[k])
+//@   loop 0 decreases n - i
+
+// decoder.Transform: counts within the buffers; a base64 shift directly after
+// a base64 shift of the previous call is rejected (the state carried across
+// calls); success means every source
+// byte was consumed (so an unterminated shift is never silently accepted: at
+// EOF it is an error, otherwise ErrShortSrc); after a successful call at EOF
+// the decoder is back in its initial (ASCII) state.
+//
+//@ func (d *decoder) Transform(dst, src []byte, atEOF bool) (nDst, nSrc int, err error)
+//@   props C16
+//@   requires d != nil
+//@   requires __base(dst) != __base(src) || len(dst) == 0 || len(src) == 0
+//@   requires ErrInvalidUTF7 != nil && transform.ErrShortSrc != nil && transform.ErrShortDst != nil
+//@   requires ErrInvalidUTF7 != transform.ErrShortSrc && ErrInvalidUTF7 != transform.ErrShortDst && transform.ErrShortSrc != transform.ErrShortDst
+//@   ensures 0 <= nDst && nDst <= len(dst)
+//@   ensures 0 <= nSrc && nSrc <= len(src)
+//@   ensures err == nil ==> nSrc == len(src)
+//@   ensures err == nil && atEOF ==> d.ascii
+//@   ensures err == nil ==> forall k int :: 0 <= k && k < len(src) ==> printable(old(src[k]))
+//@   ensures !old(d.ascii) && len(src) >= 2 && old(src[0]) == '&' && old(src[1]) != '-' ==> err != nil
+//@   ensures err == transform.ErrShortSrc ==> !atEOF
+//@   ensures err != nil ==> err == transform.ErrShortSrc || err == transform.ErrShortDst || err == ErrInvalidUTF7
+//@   loop 0 vars (nDst1 int, nSrc1 int, i int)
+//@   loop 0 invariant 0 <= i && i <= len(src) && nSrc1 == i && 0 <= nDst1 && nDst1 <= len(dst)
+//@   loop 0 invariant forall k int :: 0 <= k && k < len(src) ==> src[k] == old(src[k])
+//@   loop 0 invariant i == 0 ==> d.ascii == old(d.ascii)
+//@   loop 0 invariant forall k int :: 0 <= k && k < i ==> printable(src[k])
+//@   loop 0 invariant !old(d.ascii) && len(src) >= 2 && old(src[0]) == '&' && old(src[1]) != '-' ==> i == 0
+//@   loop 0 decreases len(src) - i
+//@   loop 1 vars (nDst1 int, idx int)
+//@   loop 1 locals (b []byte, i int)
+//@   loop 1 invariant -1 <= idx && 0 <= nDst1 && nDst1+len(b)-(idx+1) <= len(dst) && 0 <= i && i < len(src)
+//@   loop 1 invariant forall k int :: 0 <= k && k < len(src) ==> src[k] == old(src[k])
+//@   loop 1 invariant __base(b) != __base(dst)
+//@   loop 1 invariant forall k int :: 0 <= k && k <= i ==> printable(src[k])
+//@   loop 1 decreases len(b) - idx
+//@   loop 2 vars (i int)
+//@   loop 2 locals (start int)
+//@   loop 2 invariant 0 < i && i <= len(src) && start <= i
+//@   loop 2 invariant forall k int :: start <= k && k < i ==> src[k] != 13 && src[k] != 10
+//@   loop 2 decreases len(src) - i
